@@ -70,6 +70,9 @@ pub struct C13Case {
     pub src: Src,
     pub two_pass: bool,
     pub rt: Rt,
+    /// command-line variant (exit status of the built converters) instead of the library call
+    #[serde(default)]
+    pub tool: Option<crate::clifam::RefuseTool>,
 }
 
 const CLEN: u32 = 100;
@@ -455,7 +458,7 @@ impl Check for C13 {
                     }
                     for two_pass in [false, true] {
                         for &rt in &rts {
-                            v.push(C13Case { nchrom: 3, bed, valid: None, viol: Some(viol.clone()), src, two_pass, rt });
+                            v.push(C13Case { nchrom: 3, bed, valid: None, viol: Some(viol.clone()), src, two_pass, rt, tool: None });
                         }
                     }
                 }
@@ -484,7 +487,7 @@ impl Check for C13 {
                 for src in srcs {
                     for two_pass in [false, true] {
                         for &rt in &rts {
-                            v.push(C13Case { nchrom: 3, bed, valid: Some(d.clone()), viol: None, src, two_pass, rt });
+                            v.push(C13Case { nchrom: 3, bed, valid: Some(d.clone()), viol: None, src, two_pass, rt, tool: None });
                         }
                     }
                 }
@@ -507,7 +510,7 @@ impl Check for C13 {
                     for src in [Src::Iter, Src::SerialText, Src::ParallelFile] {
                         for two_pass in [false, true] {
                             for &rt in &rts {
-                                v.push(C13Case { nchrom: n, bed, valid: None, viol: Some(viol.clone()), src, two_pass, rt });
+                                v.push(C13Case { nchrom: n, bed, valid: None, viol: Some(viol.clone()), src, two_pass, rt, tool: None });
                             }
                         }
                     }
@@ -518,15 +521,23 @@ impl Check for C13 {
                 for src in [Src::Iter, Src::SerialText, Src::ParallelFile] {
                     for two_pass in [false, true] {
                         for &rt in &rts {
-                            v.push(C13Case { nchrom: n, bed, valid: Some(Degenerate::Base), viol: None, src, two_pass, rt });
+                            v.push(C13Case { nchrom: n, bed, valid: Some(Degenerate::Base), viol: None, src, two_pass, rt, tool: None });
                         }
                     }
                 }
             }
         }
+        for t in crate::clifam::refuse_tool_cases(quick) {
+            v.push(C13Case { nchrom: 3, bed: t.bed, valid: None, viol: None, src: Src::SerialText, two_pass: !t.single_pass, rt: Rt::Current, tool: Some(t) });
+        }
         Box::new(v.into_iter())
     }
     fn run(&self, c: &C13Case, out: &mut Outcome) {
+        if let Some(t) = &c.tool {
+            out.nontrivial = true;
+            crate::clifam::c13_tool(t, out);
+            return;
+        }
         let tags = c13_tags(c);
         let tmp = std::env::temp_dir();
         let r = guarded(|| c13_write(c, &tmp));
@@ -839,7 +850,7 @@ impl Check for C14 {
         out.nontrivial = true;
         match &c.mode {
             C14Mode::Refused(viol) => {
-                let cc = C13Case { nchrom: 3, bed: c.bed, valid: None, viol: Some(viol.clone()), src: Src::Iter, two_pass: c.opts.two_pass, rt: Rt::Current };
+                let cc = C13Case { nchrom: 3, bed: c.bed, valid: None, viol: Some(viol.clone()), src: Src::Iter, two_pass: c.opts.two_pass, rt: Rt::Current, tool: None };
                 let inp = build_input(&cc);
                 let sink = Sink::new();
                 let s2 = sink.clone();
